@@ -5,6 +5,7 @@ back to TLC and judged by the action's clauses (Binding B, harness/trace.py)."""
 from __future__ import annotations
 
 import json
+from fractions import Fraction
 import os
 import sys
 
@@ -614,8 +615,9 @@ def c16(tier):
     # operations whose result the spec does not pin down (forced removal / reduction, lossy fitting): the SAME
     # TLC-generated call is executed with Fraction data and with float data and the two results are compared
     for module, cfg in [("MC_Curve.tla", "MC_Curve_remove_quick.cfg"), ("MC_Curve.tla", "MC_Curve_decrease_quick.cfg"),
-                        ("MC_Curve.tla", "MC_Curve_fitcurve_quick.cfg")]:
-        cross_mode(ev, rep, module, cfg, cache, limit=600 if tier == "quick" else None)
+                        ("MC_Curve.tla", "MC_Curve_fitcurve_quick.cfg"), ("MC_Curve.tla", "MC_Curve_fitpoints_quick.cfg"),
+                        ("MC_Curve.tla", "MC_Curve_arith_quick.cfg"), ("MC_Curve.tla", "MC_Curve_join_quick.cfg")]:
+        cross_mode(ev, rep, module, cfg, cache, limit=400 if tier == "quick" else None)
     ev.assumptions += ["float modes compare with the exact spec value to 1e-9 relative on the small, well-conditioned universe",
                        "relationally specified results (tolerance-guarded removal etc.) are judged only in exact mode"]
     return finish(ev, rep)
@@ -641,8 +643,11 @@ def cross_mode(ev, rep, module, cfg, cache, limit=None):
     n = 0
     for t in recs:
         a = t["act"]
-        if a["name"] not in ("CvKnotRemove", "CvDegreeDecrease", "CvFitCurve", "CvFitInRational"):
+        if a["name"] not in ("CvKnotRemove", "CvDegreeDecrease", "CvFitCurve", "CvFitInRational", "CvFitPoints",
+                             "CvArith", "CvScalar", "CvJoin"):
             continue
+        if a["name"] == "CvFitPoints" and a.get("dflt"):
+            continue  # default nodes are a different distribution for Fraction and for float knots (closed / Chebyshev)
         if a["name"] == "CvFitCurve" and (t["pre"][a["obj"]]["W"] or a["other"]["W"]):
             # the L2 projection onto / of a RATIONAL space needs integrals of rational functions, which the library
             # approximates by quadrature (open Newton-Cotes for Fractions, Chebyshev for floats): outside the source
@@ -657,6 +662,25 @@ def cross_mode(ev, rep, module, cfg, cache, limit=None):
         if cx != "ok" or cf != "ok":
             if cx != cf:
                 rep.violation(f"crossmode:{a['name']}:outcome", {"transition": t, "failures": [f"Fraction data: {cx} ({ex}), float data: {cf} ({ef})"], "mode": "float"})
+            continue
+        if a["name"] in ("CvArith", "CvScalar", "CvJoin"):
+            # a returned curve: compared as a FUNCTION (the two number types may legitimately store it differently)
+            cx_, cf_ = vx["curve"], vf["curve"]
+            lim = [float(v) for v in cx_.knotvector.limits]
+            bad = []
+            if [float(v) for v in cf_.knotvector.limits] != lim:
+                bad.append(f"interval {cf_.knotvector.limits} vs {cx_.knotvector.limits}")
+            else:
+                ks = sorted({Fraction(v) for v in cx_.knotvector.knots})
+                for lo, hi in zip(ks[:-1], ks[1:]):
+                    for k in (1, 2, 4):
+                        u = lo + (hi - lo) * Fraction(k, 5)
+                        x, y = float(cx_(u)), float(cf_(float(u)))
+                        if not abs(x - y) <= 1e-7 * max(1.0, abs(x)):
+                            bad.append(f"at u = {u}: {x!r} vs {y!r}")
+            if bad:
+                rep.violation(f"crossmode:{a['name']}:result", {"transition": t, "mode": "float", "failures": [
+                    "Fraction data and float data give different curves: " + "; ".join(bad[:4])]})
             continue
         px, pf = lx[a["obj"]], lf[a["obj"]]
         ok = len(px.ctrlpoints) == len(pf.ctrlpoints) and all(
